@@ -407,9 +407,17 @@ def run(ctx):
         timing[name] = round(now - T["t"], 1)
         T["t"] = now
 
-    generate(ctx)
-    lap("translate")
-    info = ctx.coq_props()
+    translator_error = None
+    try:
+        generate(ctx)
+        lap("translate")
+        info = ctx.coq_props()
+    except vlib.TranslatorError as e:
+        # fail-closed translator: the tie is broken.  Still search the real implementation
+        # for a concrete input violating the property text before reporting.
+        translator_error = str(e)
+        info = {"ok": False, "obligations": 1, "discharged": 0, "axioms": [], "theorems": [],
+                "failed": f"translator failed closed: {e}", "log": f"Error: translator failed closed: {e}"}
     lap("coq_props")
     r = vlib.rng(ctx.seed, "C14")
     n_types = 500 if ctx.quick else 6000
@@ -445,8 +453,8 @@ def run(ctx):
     table_notes = check_tables(ctx, tables)
     # ---- model evaluation
     model = None
-    have_model = (vlib.COQ / "C14" / "Model.vo").exists()
-    if not have_model:
+    have_model = translator_error is None and (vlib.COQ / "C14" / "Model.vo").exists()
+    if translator_error is None and not have_model:
         mk = ctx.coq_make(["C14/Model.vo"])
         have_model = mk.ok
     if have_model:
@@ -506,7 +514,7 @@ def run(ctx):
             spec_viol.append((f"affine-no-drop:{x['str']}", "affine Guppy type whose HUGR type does not satisfy requires_drop",
                               {"type": x["str"], "hugr_type": x["hugr"]["str"], "phantom_free": phantom_free(e), "replay": rep}))
     # ---- programs
-    prog_stats = run_programs(ctx, r, G, structs, [b for b in built if json.dumps(b[0]) in prog_keys], n_prog_funcs, spec_viol)
+    prog_stats = run_programs(ctx, r, G, structs, [b for b in built if json.dumps(b[0]) in prog_keys], n_prog_funcs, spec_viol, model is not None)
     lap("programs")
     # ---- decide
     def report_spec(extra=None):
@@ -623,7 +631,7 @@ def check_tables(ctx, tables):
     return notes
 
 
-def run_programs(ctx, r, G, structs, built, n_funcs, spec_viol):
+def run_programs(ctx, r, G, structs, built, n_funcs, spec_viol, have_model=True):
     """Compile programs whose parameters of droppable types are left unused; compare the drop
     nodes with the model's expectation (flattened to the leaves requiring a drop)."""
     cand = []
@@ -688,9 +696,14 @@ def run_programs(ctx, r, G, structs, built, n_funcs, spec_viol):
     out = json.loads(ctx.impl("impl_drops.py", {"programs": progs}))
     # model expectation
     flat = [p for key in expect for p in expect[key]]
-    leaves = model_eval(ctx, [x["enc"] for _, x, _ in flat], "leaves", "l") if flat else []
-    it = iter(leaves)
-    exp_leaves = {key: sorted(l for _ in expect[key] for l in next(it)) for key in expect}
+    exp_leaves = {}
+    if have_model and flat:
+        try:
+            leaves = model_eval(ctx, [x["enc"] for _, x, _ in flat], "leaves", "l")
+            it = iter(leaves)
+            exp_leaves = {key: sorted(l for _ in expect[key] for l in next(it)) for key in expect}
+        except RuntimeError as e:
+            ctx.notes.append(f"model evaluation (leaves) failed: {str(e)[-400:]}")
     stats = {"programs": len(progs), "functions": 0, "compiled": 0, "compile_errors": 0, "drops_seen": 0,
              "functions_with_affine_unused": 0, "mismatches": 0}
     srcs = {p["name"]: p["src"] for p in progs}
@@ -711,6 +724,12 @@ def run_programs(ctx, r, G, structs, built, n_funcs, spec_viol):
             ctx.report(f"dangling:{rec['func']}:{rec['dangling']}", "counterexample",
                        "compiled HUGR has an unconnected value port whose type requires a drop (or a malformed drop)",
                        dict(replay, dangling=rec["dangling"], drop_srcs_ok=rec["drop_srcs_ok"]))
+        if key in expect:
+            n_aff = sum(1 for _, x, _ in expect[key] if not x["cop"])
+            if len([l for d in rec["drops"] for l in py_leaves(d)]) < n_aff:
+                spec_viol.append((f"program-affine-no-drop:{[s for _, _, s in expect[key]]}",
+                                  "fewer drops in the compiled HUGR than unused affine parameters",
+                                  dict(replay, parameter_types=[s for _, _, s in expect[key]], drops=rec["drops"])))
         if key in exp_leaves:
             real_leaves = sorted(l for d in rec["drops"] for l in py_leaves(d))
             if any(not x["cop"] for _, x, _ in expect[key]):
